@@ -331,21 +331,46 @@ class TransformError(Exception):
     pass
 
 
-def _parse(prog):
-    return fir.parse_fortran(fir.emit_fortran(prog, wrap_program=False))
+def recase_text(text, names, rng, style='mixed'):
+    """Fortran is case-insensitive: respell every OCCURRENCE of the given names (whole words, code lines only: comment and
+    pragma lines are left alone) independently — 'mixed': each occurrence upper or lower at random; 'upper': all upper"""
+    import re
+    if not names:
+        return text
+    pat = re.compile(r'(?<![A-Za-z0-9_.])(' + '|'.join(sorted((re.escape(n) for n in names), key=len, reverse=True))
+                     + r')(?![A-Za-z0-9_])', re.I)
+
+    def sub(m):
+        w = m.group(1)
+        if style == 'upper' or rng.random() < 0.5:
+            return w.upper()
+        return w.lower()
+    out = []
+    for line in text.split('\n'):
+        out.append(line if line.lstrip().startswith('!') else pat.sub(sub, line))
+    return '\n'.join(out)
+
+
+def _parse(prog, case=0):
+    text = fir.emit_fortran(prog, wrap_program=False)
+    if case:
+        names = {str(d[1]) for u in units(prog) for d in u[3]} | {str(u[1]) for u in units(prog) if str(u[1]) != str(prog[1])}
+        text = recase_text(text, names, _random.Random(case))
+    return fir.parse_fortran(text)
 
 
 _CACHE = {}
 
 
-def real_outline(prog):
-    """cached front end of `_real_outline` (impl, classifier and oracle ask for the same program)"""
-    key = dumps(prog)
+def real_outline(prog, case=0):
+    """cached front end of `_real_outline` (impl, classifier and oracle ask for the same program); `case` != 0: the source
+    text handed to Loki has every name occurrence respelled in random letter case (seed `case`)"""
+    key = dumps(prog) + f'#{case}'
     if key not in _CACHE:
         if len(_CACHE) > 64:
             _CACHE.clear()
         try:
-            _CACHE[key] = ('ok', _real_outline(prog))
+            _CACHE[key] = ('ok', _real_outline(prog, case))
         except Exception as e:
             _CACHE[key] = ('exc', e)
     tag, val = _CACHE[key]
@@ -354,13 +379,13 @@ def real_outline(prog):
     return val
 
 
-def _real_outline(prog):
+def _real_outline(prog, case=0):
     """(transformed program in wire form, fgen text of the whole file).  Errors of the harness printer / the frontend
     propagate; errors of the transformation and of fgen raise TransformError; a transformed IR outside FIR raises
     fir.Unsupported."""
     from loki import fgen
     from loki.transformations.extract import ExtractTransformation
-    sf = _parse(prog)
+    sf = _parse(prog, case)
     try:
         fir.export_unit(sf, main=fir.prog_main(prog))
     except fir.Unsupported as e:
@@ -486,13 +511,16 @@ def add_regions(rng, prog):
 def decode(req):
     kind = str(req[0])
     if kind == 'extract':
-        if len(req) != 4 or not isinstance(req[1], str) or not isinstance(req[2], list) or len(req[2]) != 1 \
-                or not isinstance(req[2][0], str) or str(req[3]) not in ('mod', 'file'):
+        if len(req) not in (4, 5) or not isinstance(req[1], str) or not isinstance(req[2], list) or len(req[2]) != 1 \
+                or not isinstance(req[2][0], str) or str(req[3]) not in ('mod', 'file') \
+                or (len(req) == 5 and str(req[4]) not in ('extract', 'both', 'outline')):
             raise ValueError('malformed request')
         return kind, req[1], req[2], str(req[3])
     prog = req[1]
     inputs = req[2]
     flag = str(req[3]) if len(req) > 3 else 'nogf'
+    if len(req) > 5 or (len(req) == 5 and int(str(req[4])) < 0):
+        raise ValueError('malformed request')
     if kind != 'outline' or h(prog) != 'program' or not isinstance(inputs, list) or flag not in ('gf', 'nogf') or len(prog) < 3:
         raise ValueError('malformed request')
     for u in prog[2:]:
@@ -500,6 +528,13 @@ def decode(req):
             raise ValueError('malformed unit')
     main_unit(prog)
     return kind, prog, inputs, flag
+
+
+def case_of(req):
+    """letter-case seed of an outline request (0 = the printer's lower case) / flags of an extract request"""
+    if str(req[0]) == 'extract':
+        return str(req[4]) if len(req) > 4 else 'extract'
+    return int(str(req[4])) if len(req) > 4 else 0
 
 
 # ---------------------------------------------------------------- extraction of internal procedures (text level)
@@ -672,6 +707,9 @@ class C33(Prop):
         kind, prog, inputs, flag = decode(req)
         if kind == 'extract':
             return [A('extract'), A('oracle-only')]
+        if case_of(req):
+            # respelled names change `sorted(…, key=str)` (upper case first), i.e. the order of the dummies: no model for that
+            return [A('case-variant'), A('oracle-only')]
         cs, regions, bad = syntactic_classes(prog)
         if bad or cs:
             return [A('result'), [A(c) for c in cs], A('excluded')]
@@ -689,10 +727,10 @@ class C33(Prop):
         return resp
 
     # ---- direct oracle
-    def classes_of(self, prog):
+    def classes_of(self, prog, case=0):
         cs, regions, bad = syntactic_classes(prog)
         try:
-            tp, _ = real_outline(prog)
+            tp, _ = real_outline(prog, case)
             cs = cs + classes_from_real(prog, tp, regions)
         except Exception:
             pass
@@ -701,12 +739,13 @@ class C33(Prop):
     def oracle(self, req):
         kind, prog, inputs, flag = decode(req)
         if kind == 'extract':
-            return self.oracle_extract(prog, inputs[0], flag)
-        cs = self.classes_of(prog)
+            return self.oracle_extract(prog, inputs[0], flag, case_of(req))
+        case = case_of(req)
+        cs = self.classes_of(prog, case)
         plain = [c for c in cs if c != K_OUT]
         cls = plain[0] if plain else None
         try:
-            tp, text = real_outline(prog)
+            tp, text = real_outline(prog, case)
         except (TransformError, fir.Unsupported) as e:
             return [Failure(f'outline: transformation or export of its result raised {type(e).__name__}: {str(e)[:120]}', cls)]
         fails = []
